@@ -229,11 +229,18 @@ pub fn evaluate(sc: &Scenario, oracle: &Oracle, precompiles: Precompiles, engine
     let txs = materialise_txs(sc, &m);
     let parallel = takes_parallel_path(&sc.grevm, txs.len());
     let want_rb = oracle.readback && sc.faults.is_empty() && sc.raw_faults.is_empty();
+    // transient plan: only "the n-th read of a storage key fails once" faults. C04: such a fault is
+    // either absorbed (the full fault-free result) or reported with an exact prefix; here the absorbed
+    // case is compared with the fault-free reference and the reported case is left to C04.
+    let transient = !sc.faults.is_empty() && sc.raw_faults.is_empty() && sc.faults.iter().all(|f| matches!(f.mode, FaultMode::FailNth(_)) && matches!(f.key, crate::scenario::DbKey::Storage(..)));
     let ref_db = {
         let mut d = m.db.clone();
         d.yields = false;
         // injected panics are not part of in-order semantics: the reference runs without them
         d.faults.retain(|(_, mode)| !matches!(mode, FaultMode::PanicNth(_)));
+        if transient {
+            d.faults.clear();
+        }
         d
     };
     let rf = match engine {
@@ -294,6 +301,18 @@ pub fn evaluate(sc: &Scenario, oracle: &Oracle, precompiles: Precompiles, engine
         }
     }
 
+    if transient {
+        rep.classes.push("transient_fault_plan".into());
+        if out.db_fired > 0 {
+            rep.classes.push("transient_fault_fired".into());
+        }
+        if let Err((_, e)) = &out.result {
+            if e.starts_with("Database(") || e.contains("injected") {
+                rep.excluded = Some("transient database fault reported as the block error (C04 decides the prefix)".into());
+                return (rep, Artifacts { rf, out });
+            }
+        }
+    }
     if rf.error.is_some() && oracle.exclude_ref_fatal {
         rep.excluded = Some("reference run meets a fatal error".into());
         return (rep, Artifacts { rf, out });
@@ -376,6 +395,8 @@ pub fn class_histogram(h: &mut BTreeMap<String, u64>, r: &CaseReport) {
     histogram_add(h, "runs_with_reference_skips", (r.ref_skipped > 0) as u64);
     histogram_add(h, "runs_with_reference_fatal", r.ref_error as u64);
     histogram_add(h, "runs_with_injected_panic_reaching_caller", r.classes.iter().any(|c| c == "injected_panic_reached_caller") as u64);
+    histogram_add(h, "runs_with_transient_fault_plan", r.classes.iter().any(|c| c == "transient_fault_plan") as u64);
+    histogram_add(h, "runs_with_transient_fault_fired_and_absorbed", (r.classes.iter().any(|c| c == "transient_fault_fired") && r.excluded.is_none()) as u64);
     histogram_add(h, "runs_with_max_incarnation_ge_8", (c.max_incarnation >= 8) as u64);
     histogram_add(h, "runs_with_max_incarnation_ge_16", (c.max_incarnation >= 16) as u64);
     histogram_add(h, "runs_with_max_incarnation_ge_32", (c.max_incarnation >= 32) as u64);
